@@ -372,10 +372,18 @@ pub fn main(args: &[String]) -> i32 {
         let body_len: u64 = p["body_len"].as_u64().unwrap_or(0);
         let skip_budgets = skip_budgets_all || n % budget_every != 0;
         let mut failures: Vec<J> = Vec::new();
+        // a metered run that the tick limit of the harness had to stop although the reference finishes (seen with D4: the
+        // clobbered condition sends the engine into a loop the reference never enters): the unmetered engine may not terminate
+        let mut engine_ran_away = false;
         'cfgs: for (cname, v1, metering) in CONFIGS.iter() {
-            if *metering == 0 && failures.iter().any(|f| f["known"].as_array().map(|k| k.is_empty()).unwrap_or(true)) {
+            if *metering == 0 && (engine_ran_away || failures.iter().any(|f| f["known"].as_array().map(|k| k.is_empty()).unwrap_or(true))) {
+                if engine_ran_away {
+                    *stats.entry("unmetered-skipped:ran-away".into()).or_default() += 1;
+                }
                 break 'cfgs;
             }
+            // unmetered executions have no tick limit: bound them by interpreter steps (reference runs end within `ref_fuel` steps)
+            concordium_wasm::machine::verif::set_step_limit(if *metering == 0 { 5_000_000 } else { u64::MAX });
             let should_build = expect_valid && (*v1 || !signext);
             let built = std::panic::catch_unwind(|| build(&wasm, *v1, *metering));
             let art = match built {
@@ -441,6 +449,9 @@ pub fn main(args: &[String]) -> i32 {
                 if failures.len() >= 4 {
                     break 'cfgs;
                 }
+                if std::env::var("VH_DEBUG").is_ok() {
+                    eprintln!("program {} config {} run {}", n, cname, ri);
+                }
                 let argv: Vec<Value> = run["args"].as_array().map(|a| a.iter().map(limbs_to_value).collect()).unwrap_or_default();
                 let hostq: Vec<i64> = p["hostq"].as_array().map(|a| a.iter().map(|x| limbs_to_u64(x) as i64).collect()).unwrap_or_default();
                 let exp_status = run["out"]["status"].as_str().unwrap_or("?").to_string();
@@ -505,11 +516,21 @@ pub fn main(args: &[String]) -> i32 {
                 runs += 1;
                 let obs = match obs {
                     Err(pn) => {
-                        fail(format!("panic during execution: {}", panic_message(pn)), J::Null, J::Null, vec![], "");
+                        let msg = panic_message(pn);
+                        if msg.contains("verif: step limit exceeded") {
+                            // the reference finishes this run; the engine does not (attributed like any other disagreement)
+                            *stats.entry("done:no-termination".into()).or_default() += 1;
+                            fail("the engine does not terminate (step limit of the harness) on a run the reference finishes".into(), run["out"]["res"].clone(), json!("no termination"), hazard_known.clone(), "");
+                        } else {
+                            fail(format!("panic during execution: {}", msg), J::Null, J::Null, vec![], "");
+                        }
                         continue;
                     }
                     Ok(o) => o,
                 };
+                if *metering != 0 && (obs.host.out_of_energy || obs.err.contains("tick limit of the harness")) {
+                    engine_ran_away = true;
+                }
                 *stats.entry(format!("{}:{}", exp_status, obs.status)).or_default() += 1;
                 if let Some((what, exp, got)) = compare_run(&obs, &run["out"], *metering) {
                     // Attribute to a recorded finding only through its root-cause signature (DESIGN 3.6):
